@@ -15,7 +15,48 @@ from mbt.extract import xsd_model as XM
 OPS = (("Insert", "insert"), ("Add", "add"), ("PublicAdd", "public_add"), ("GetOrAdd", "get_or_add"),
        ("RemoveAll", "remove"), ("ChangeTo", "change_to"))
 METHOD = {"Insert": "_insert_%s", "Add": "_add_%s", "PublicAdd": "add_%s", "GetOrAdd": "get_or_add_%s",
-          "RemoveAll": "_remove_%s", "ChangeTo": "get_or_change_to_%s"}
+          "RemoveAll": "_remove_%s", "ChangeTo": "get_or_change_to_%s", "Hand": "%s"}
+
+
+def _hand_args() -> dict:
+    """Hand-written adders (they place the child themselves with insert_element_before): class -> {method: arguments}."""
+    from pptx.enum.shapes import MSO_CONNECTOR_TYPE, PP_PLACEHOLDER
+    return {"CT_GroupShape": {
+        "add_autoshape": (901, "n", "rect", 0, 0, 1, 1), "add_cxnSp": (901, "n", MSO_CONNECTOR_TYPE.STRAIGHT, 0, 0, 1, 1, False, False),
+        "add_freeform_sp": (0, 0, 1, 1), "add_grpSp": (), "add_pic": (901, "n", "d", "rId1", 0, 0, 1, 1),
+        "add_placeholder": (901, "n", PP_PLACEHOLDER.BODY, "horz", "full", 1), "add_table": (901, "n", 1, 1, 0, 0, 1, 1),
+        "add_textbox": (901, "n", 0, 0, 1, 1)}}
+
+
+def hand_decls(tag: str, cls: str, members: list[str], uri2pfx: dict, names: dict) -> list[dict]:
+    """Declarations read off the BEHAVIOUR of the hand-written adders of this class on the working tree: the child they create on an
+    empty parent and the sibling tags (one at a time) they place it before."""
+    out = []
+    for meth, args in sorted(_hand_args().get(cls, {}).items()):
+        try:
+            parent = _mk(tag, uri2pfx)
+            if not hasattr(parent, meth):
+                continue
+            getattr(parent, meth)(*args)
+            kids = _project(parent, uri2pfx)
+        except Exception:
+            continue
+        if len(kids) != 1 or kids[0] not in members:
+            continue
+        child, succ = kids[0], []
+        for sib in members:
+            try:
+                parent = _mk(tag, uri2pfx)
+                parent.append(_mk(sib, uri2pfx))
+                getattr(parent, meth)(*args)
+                k2 = _project(parent, uri2pfx)
+            except Exception:
+                continue
+            if len(k2) == 2 and k2[1] == sib and (k2[0] == child) and not (sib == child):
+                succ.append(sib)
+        out.append({"child": child, "kind": "ZeroOrMore", "succ": succ, "group": [], "ops": ["Hand"], "prop": meth, "reachable": True,
+                    "callers": {meth: names.get(meth, [])[:4]}, "remove_callers": {}, "custom": ["hand"]})
+    return out
 
 
 def _slot_json(s: dict, active: set, full_pairs: bool) -> dict:
@@ -54,8 +95,9 @@ def build_cases(repo: str | None = None, full_pairs: bool = False) -> dict:
     xm = XM.XsdModel(repo)
     names = D.named_identifiers(os.path.join(repo, "src", "pptx"))
     cases, not_applicable, no_model, unsupported = [], [], [], []
+    hand = _hand_args()
     for e in ex["elements"]:
-        if not e["decls"]:
+        if not e["decls"] and e["cls"] not in hand:
             continue
         cms = xm.content_models(e["tag"])
         if not cms:
@@ -85,6 +127,7 @@ def build_cases(repo: str | None = None, full_pairs: bool = False) -> dict:
                               "ops": ops, "prop": d["prop"], "reachable": r["insert_reachable"],
                               "callers": r["callers"], "remove_callers": r["remove_callers"],
                               "custom": sorted(role for role, m in d["methods"].items() if not m["generated"] and role != "new")})
+            decls += hand_decls(e["tag"], e["cls"], list(rank), dict(xm.uri2pfx), names)
             if not decls:
                 continue
             active = set()
@@ -142,11 +185,21 @@ def _project(parent, uri2pfx: dict) -> list[str]:
 
 def replay_one(job) -> dict:
     """job = (tag, kids, op, prop, child) -> {"t": observed kids, "out": "ok" | "raised:<Class>: msg"}"""
-    tag, kids, op, prop, child = job
+    tag, kids, op, prop, child = job[:5]
+    deep = len(job) > 5 and job[5]
     uri2pfx = URI2PFX
     parent = _mk(tag, uri2pfx)
     for k in kids:
         parent.append(_mk(k, uri2pfx))
+    if deep:
+        # "whatever siblings exist": the siblings have content of their own - descendants that carry the same names as the children
+        # of this parent (a shape's p:nvPr/p:extLst beside the shape tree's p:extLst, a group in a group): only CHILDREN count
+        inner = list(dict.fromkeys(list(kids) + [child]))
+        for sib in list(parent):
+            holder = _mk(kids[0] if kids else child, uri2pfx)
+            sib.append(holder)
+            for k in inner:
+                holder.append(_mk(k, uri2pfx))
     before = _project(parent, uri2pfx)
     if before != list(kids):
         return {"t": before, "out": "raised:ProjectionMismatch"}
@@ -157,6 +210,8 @@ def replay_one(job) -> dict:
             new = getattr(parent, "_new_" + prop, None)
             elm = new() if new is not None else _mk(child, uri2pfx)
             m(elm)
+        elif op == "Hand":
+            m(*next(v[prop] for v in _hand_args().values() if prop in v))
         else:
             m()
         out = "ok"
